@@ -232,7 +232,11 @@ def run_check(prop, pid, tier, seed):
                 violations.append(Violation("correspondence harness no longer builds against /repo", kind="build",
                                             detail={"diagnostics": str(e)[-4000:]}))
                 ctx.binary = None
-            if ctx.binary and not any(v.kind == "proof" and "make" in v.what for v in violations):
+            if ctx.binary and not any(v.kind == "proof" and "make" in v.what for v in violations) and hasattr(prop, "run"):
+                # properties with their own driver (long generated streams): returns (cases, violations, #T1 mismatches)
+                cases, pv, t1_bad = prop.run(ctx)
+                violations.extend(pv)
+            elif ctx.binary and not any(v.kind == "proof" and "make" in v.what for v in violations):
                 cases = prop.gen_cases(ctx)
                 run_harness(ctx.binary, cases, pid)
                 # --- T1: bit-exact agreement with the float instance of the model
@@ -300,7 +304,7 @@ def run_check(prop, pid, tier, seed):
     for c in cases:
         if prop.nontrivial(c):
             nontriv.add(json.dumps(c.to_json()["ops"]))
-    samples = [{"id": c.cid, "ops": c.to_json()["ops_readable"][:12], "n_ops": len(c.ops)} for c in cases[:3]]
+    samples = [{"id": c.cid, "ops": c.to_json()["ops_readable"][:12], "n_ops": len(getattr(c, "ops", [])) or getattr(c, "length", 0)} for c in cases[:3]]
     cov = {
         "obligations": max(audit["obligations"], 1) if audit["theorems"] else audit["obligations"],
         "discharged": audit["discharged"],
